@@ -178,7 +178,13 @@ def check_callers(ctx, F, rule, callee_q, allowed, min_sites=1, desc=None):
     sites = callers(F, callee_q)
     desc = desc or short(callee_q)
     if len(sites) < min_sites:
-        raise AnalysisError("%s [%s]: expected at least %d call site(s) of %s, found %d" % (rule, F.config, min_sites, callee_q, len(sites)))
+        defined = callee_q in F.fns or any(it["q"] == callee_q for tr in F.traits.values() for it in tr["items"])
+        if not defined:
+            # the anchor itself is gone (renamed/removed API): the rule cannot judge
+            raise AnalysisError("%s [%s]: anchor %s is not defined in the crate" % (rule, F.config, callee_q))
+        # the function exists but the required call sites are gone: that is what the rule is about
+        ctx.bad(rule, "%s has %d call site(s)" % (desc, len(sites)), "at least %d call site(s) of %s (in %s)" % (min_sites, desc, sorted(allowed)),
+                "%d call sites" % len(sites), where="", key="%s|%s|missing" % (rule, desc))
     for cs in sites:
         okc = cs.fn.q in allowed
         ctx.judge(okc, rule, "%s <- %s" % (desc, cs.fn.q),
@@ -263,6 +269,20 @@ def bool_switches_on(fn, rx):
                 x = strip(x[2])
             out.append((a, fs, ts) if neg else (a, ts, fs))
     return out
+
+
+def ret_table(fn):
+    """Decision table of a function's return value: one row per definition of the return place that
+    reaches a return: (defining block, value tree, guards of the defining block)."""
+    rows = []
+    seen = set()
+    for r in fn.cfg.live_rets:
+        for b, t in fn.flow.alternatives(0, r, "t"):
+            if b is None or (b, repr(t)) in seen:
+                continue
+            seen.add((b, repr(t)))
+            rows.append((b, strip(t), guards(fn, b, assumed=True)))
+    return rows
 
 
 def closure_parent(F, fn):
